@@ -53,6 +53,8 @@ def check(ctx):
   c11.r4(ctx)
   c11.r2_r3(ctx)
   c13.r4_bits(ctx)
+  ctx.rule('C13.R3', 'shared with C13: one writer per multiplexed connection (a frame written from another greenlet lands inside a half-written request: the server decodes arguments no caller passed)')
+  c13.single_writer(ctx, 'C02.R1')
   r5(ctx)
 
 
